@@ -653,6 +653,95 @@ def _child_main(argv):
 
 
 # ======================================================================================
+# several logs of one logger
+
+def check_multilog(case):
+    """One rotating Logger with two always-logs of different record sizes (added in either order), START + RUN ticks +
+    STOP. Per log, read back after the run: every retained file starts with the header, the records read oldest to
+    newest are the contiguous tail of that log's record stream up to its last record, each once - and every rotate
+    copy has at least `size` bytes (a file is rotated only when IT has reached the threshold).
+    case: {"multilog": True, "keep", "cycle", "size", "dt", "ticks", "pads": [padA, padB], "first": 0|1}"""
+    from vp.core import env
+    env.quiet_ioflo()
+    from ioflo.base import housing, logging as iolog, globaling as g
+    root = tempfile.mkdtemp(prefix="vpc23m", dir=_TMPROOT)
+    fails = []
+    try:
+        housing.House.Clear()
+        housing.ClearRegistries()
+        house = housing.House(name="vp")
+        store = house.store
+        house.assignRegistries()
+        logger = iolog.Logger(name="lg", store=store, schedule=g.ACTIVE, prefix=root, flushPeriod=1.0, keep=case["keep"],
+                              cyclePeriod=case["cycle"], fileSize=case["size"], reuse=True)
+        house.taskers.append(logger)
+        house.mids.append(logger)
+        house.orderTaskables()
+        store.changeStamp(0.0)
+        names = ["A", "B"]
+        shares = {}
+        for n, pad in zip(names, case["pads"]):
+            shares[n] = store.create("r.%s" % n.lower()).create(seq=0, pad="x" * pad)
+        order = names if case["first"] == 0 else names[::-1]
+        for n in order:
+            log = iolog.Log(name=n, store=store, kind="text", rule=g.ALWAYS)
+            log.addLoggee(tag="s", loggee="r.%s" % n.lower())
+            logger.addLog(log)
+        logger.resolve()
+        nticks = case["ticks"]
+        for k in range(nticks + 1):
+            t = k * case["dt"]
+            store.changeStamp(t)
+            for n in names:
+                shares[n].update(seq=k)
+            logger.runner.send(g.START if k == 0 else (g.STOP if k == nticks else g.RUN))
+        logger.runner.close()
+        d = logger.path
+        for n, pad in zip(names, case["pads"]):
+            hdr = "text\tAlways\t%s\n_time\ts.seq\ts.pad\n" % n
+            stream = ["%s\t%s\t%s\n" % (k * case["dt"], k, "x" * pad) for k in range(nticks + 1)]
+            got = []
+            for fn in ["%s%02d.txt" % (n, j) for j in range(case["keep"], 0, -1)] + ["%s.txt" % n]:
+                fp = os.path.join(d, fn)
+                if not os.path.exists(fp):
+                    continue
+                text = open(fp).read()
+                if text and not text.startswith(hdr):
+                    fails.append(("multilog-header-missing", "%s does not start with the header: %r" % (fn, text[:80])))
+                    continue
+                if fn != "%s.txt" % n and case["size"] and 0 < len(text) < case["size"]:
+                    fails.append(("multilog-rotated-below-size-threshold", "log %s (pad %d, added %s): rotate copy %s holds %d bytes, the size "
+                                  "threshold is %d - it was rotated before it had reached it" % (
+                                      n, pad, "first" if order[0] == n else "second", fn, len(text), case["size"])))
+                got += text[len(hdr):].splitlines(True) if text else []
+            if got != stream[len(stream) - len(got):] or (stream and (not got or got[-1] != stream[-1])):
+                fails.append(("multilog-records", "log %s: retained records %r.. are not the contiguous tail of its stream (last %r)"
+                              % (n, got[:3], stream[-1:])))
+    except Exception as ex:   # noqa: BLE001
+        fails.append(("multilog-raises-%s@%s" % (type(ex).__name__, _ioflo_site(ex.__traceback__)), "driving the logger raised %r" % (ex,)))
+    finally:
+        shutil.rmtree(root, ignore_errors=True)
+    seen, out = set(), []
+    for sgn, w in fails:
+        if sgn not in seen:
+            seen.add(sgn)
+            out.append((sgn, w))
+    return out
+
+
+def multilog_cases():
+    out = []
+    for keep in (1, 2):
+        for size in (100, 300):
+            for pads in ([40, 0], [0, 40], [80, 3]):
+                for first in (0, 1):
+                    for cycle in (0.5, 1.0):
+                        out.append({"multilog": True, "keep": keep, "cycle": cycle, "size": size, "dt": 0.125, "ticks": 40,
+                                    "pads": pads, "first": first})
+    return out
+
+
+# ======================================================================================
 # generator
 
 def case_strategy(kill=False):
@@ -735,13 +824,22 @@ def _bucket(n):
 
 def plan(tier):
     if tier == "quick":
-        return [{"part": "snap", "i": i} for i in range(8)]
-    return [{"part": "snap", "i": i} for i in range(11)] + [{"part": "kill", "i": 11 + i} for i in range(5)]
+        return [{"part": "snap", "i": i} for i in range(8)] + [{"part": "multilog", "i": 50}]
+    return [{"part": "snap", "i": i} for i in range(11)] + [{"part": "kill", "i": 11 + i} for i in range(5)] + \
+        [{"part": "multilog", "i": 50}]
 
 
 def work(shard, seed, tier):
     from vp.core.hyp import campaign, Outcome, Budget
     acc = Acc()
+    if shard["part"] == "multilog":
+        for case in multilog_cases():
+            fails = check_multilog(case)
+            acc.case(key=("multilog", repr(case)), nontrivial=True, classes=["two-logs-one-logger"], sample=None)
+            for sig, what in fails:
+                acc.fail(sig, what, case)
+        acc.note("one rotating logger with two logs of different record sizes: %d configurations enumerated" % len(multilog_cases()))
+        return acc
     kill = shard["part"] == "kill"
     if tier == "quick":
         n, budget = 64, 16
@@ -815,6 +913,8 @@ def _wellformed(c):
 
 
 def replay(case):
+    if case.get("multilog"):
+        return check_multilog(case)
     if "kill" in case:
         fails, _, _ = kill_case(case)
     else:
